@@ -84,26 +84,28 @@ theorem isOk_objSelG {o : DOpts} {ci c} {ms : List (FieldInfo × Meth)} {ts : Li
     (h : AcceptsGF o ms ts) (hacc : nfF ts = true) (hal : (aliasesOf ts).Nodup) (d : Py) (hg : d.good = true) :
     (run (objSel o ci c ms) d).isOk
       = dictOk c d (fun kvs => conformsF o.additionalProperties false ts kvs
-                                && noUnexpected o.additionalProperties (aliasesOf ts) kvs) := by
+                                && noUnexpected o.additionalProperties (aliasesOf ts) kvs && depOk (infosOf ts) kvs) := by
   obtain ⟨hfields, halias, hnf⟩ := fields_of_AcceptsGF h hacc
+  have hinfos := infos_of_All2 h
   have ha : (aliasesM ms).Nodup := halias ▸ hal
   unfold objSel
   simp only
   split
   · rename_i hcond
     simp only [Bool.and_eq_true, Bool.not_eq_true', beq_iff_eq] at hcond
-    obtain ⟨⟨⟨hc, htd⟩, _⟩, _⟩ := hcond
+    obtain ⟨⟨⟨hc, htd⟩, _⟩, hsimple⟩ := hcond
     rw [run]
     cases d <;> simp [onDict, dictOk, isOk_badType]
     case dict kvs =>
       obtain ⟨hw, hj, hk⟩ := good_dict hg
-      rw [isOk_finishSimple hnf hk ha, hfields kvs hw hj, halias, dictErrors_nil hc, htd]
+      rw [isOk_finishSimple hnf hk ha, hfields kvs hw hj, halias, dictErrors_nil hc, htd, ← hinfos,
+        depOk_of_noDeps (simpleOk_noDeps hsimple) kvs]
       simp
   · rw [run]
     cases d <;> simp [onDict, dictOk, isOk_badType]
     case dict kvs =>
       obtain ⟨hw, hj, hk⟩ := good_dict hg
-      rw [isOk_finishObj hnf hk ha, hfields kvs hw hj, halias]
+      rw [isOk_finishObj hnf hk ha, hfields kvs hw hj, halias, hinfos]
 
 theorem nfF_of_accUF : ∀ {fs : List (FieldInfo × Ty)}, accUF fs = true → nfF fs = true
   | [], _ => rfl
